@@ -49,6 +49,9 @@ pub enum Call {
     /// Bump a file's change-time (chmod).
     Touch(FileRef),
     SleepMs(u8),
+    /// Sleep for this many milliseconds (directed cases only: lets the base time go stale
+    /// so that the refresh branches of maybe_observe_file_time / scan_base_time run).
+    SleepLong(u16),
     /// Replace a registered trusted path on disk by a symbolic link to another file
     /// (the path "moves to a different device", which the module anticipates).
     RepointTrusted { which: u8, to: FileRef },
@@ -250,6 +253,10 @@ fn execute(case: &Case) -> Verdict {
                     must_not_move = true;
                     std::thread::sleep(std::time::Duration::from_millis((ms % 6) as u64));
                 }
+                Call::SleepLong(ms) => {
+                    must_not_move = true;
+                    std::thread::sleep(std::time::Duration::from_millis(ms.min(3000) as u64));
+                }
                 Call::RepointTrusted { which, to } => {
                     must_not_move = true;
                     if !env.trusted_paths.is_empty() {
@@ -405,7 +412,26 @@ fn case_strategy() -> impl Strategy<Value = Case> {
     proptest::collection::vec(call(), 1..21).prop_map(|calls| Case { calls })
 }
 
+/// Directed histories that let the base time go stale (seconds of sleep), so that the
+/// refresh branches run; each is still judged by the same oracle.
+fn refresh_path_cases() -> Vec<Case> {
+    use Call::*;
+    use FileRef::*;
+    let cases: Vec<Vec<Call>> = vec![
+        vec![AddTrustedA(0), SleepLong(2100), MaybeObserve(FreshA(1)), GetUnlocked, MaybeObserve(StaleA(0))],
+        vec![AddTrustedA(0), SleepLong(1150), Scan, GetUnlocked, Scan],
+        vec![AddTrustedA(0), Observe(FreshB(0)), SleepLong(2100), MaybeObserve(FreshB(0)), GetUnlocked, MaybeObserve(FreshA(2))],
+        vec![AddTrustedA(0), RepointTrusted { which: 0, to: FreshB(1) }, SleepLong(1150), Scan, GetBaseTime(Now::Real), GetUnlocked],
+        vec![AddTrustedB(0), SleepLong(2100), GetBaseTime(Now::Real), Observe(FreshA(0)), MaybeObserve(FreshA(0))],
+        vec![AddTrustedA(1), AddTrustedB(1), SleepLong(1150), RepointTrusted { which: 0, to: DevNull }, Scan, GetUnlocked],
+        vec![AddTrustedA(0), SleepLong(2100), MaybeObserve(Proc), MaybeObserve(DevNull), GetUnlocked, MaybeObserve(FreshA(3)), GetUnlocked],
+        vec![AddTrustedA(2), Touch(FreshA(2)), SleepLong(2100), MaybeObserve(StaleA(1)), GetUnlocked, Scan],
+    ];
+    cases.into_iter().map(|calls| Case { calls }).collect()
+}
+
 pub fn run(ctx: &Ctx, rep: &mut Report) {
+    engine::enumerate(ctx, rep, "refresh-paths", refresh_path_cases().into_iter(), check_case);
     let cases = ctx.share(ctx.tier.pick(6_000, 200_000));
     engine::drive_opts(ctx, rep, "histories", case_strategy(), cases, check_case, true);
 }
@@ -417,7 +443,7 @@ fn replay(_ctx: &Ctx, _group: &str, case: &Value) -> CaseResult {
 pub fn def() -> PropDef {
     PropDef {
         id: "C19",
-        rule: "Each case runs in a fresh child process (the module state is process-global). A case is a sequence of 1..20 calls: add_trusted_path on the device holding /verif (A) or on /dev/shm (B), observe_file_time / maybe_observe_file_time on files created by the case on A or B, on files that existed long before (old change-times) on A, on /proc/self/stat and /dev/null, scan_base_time, get_base_time with 'now' at the epoch / far in the future / real, get_base_time_unlocked, chmod of a fresh file (bumps its change-time), short sleeps, and replacing a registered trusted path on disk by a symbolic link to another file (on the same, the other writable, or a read-only device). With b = get_base_time_unlocked before and after every call: b never decreases; if it changed, a device is trusted, the call had trusted evidence to look at, and the new value is the change-time (ms, read back with stat) of a file the call could legitimately have observed (its argument if its device is trusted, the path being registered, or a registered path for scan / refresh - in every case only if the file it now resolves to lives on a trusted device); observe_file_time on an untrusted device reports nothing and on a trusted one reports exactly that file's change-time; every (base, voucher) pair returned by any call passes VouchedTime::check. The oracle never predicts whether the refresh policy fires. Non-trivial: an observation on an untrusted device followed later by one on a trusted device, or an old trusted file observed after a fresh one. Distinct: hash of the serialised case.",
+        rule: "Each case runs in a fresh child process (the module state is process-global). A case is a sequence of 1..20 calls: add_trusted_path on the device holding /verif (A) or on /dev/shm (B), observe_file_time / maybe_observe_file_time on files created by the case on A or B, on files that existed long before (old change-times) on A, on /proc/self/stat and /dev/null, scan_base_time, get_base_time with 'now' at the epoch / far in the future / real, get_base_time_unlocked, chmod of a fresh file (bumps its change-time), short sleeps (and, in eight directed refresh-paths histories, sleeps of 1.1 - 2.1 s that let the base time go stale so that the refresh branches of maybe_observe_file_time and scan_base_time run), and replacing a registered trusted path on disk by a symbolic link to another file (on the same, the other writable, or a read-only device). With b = get_base_time_unlocked before and after every call: b never decreases; if it changed, a device is trusted, the call had trusted evidence to look at, and the new value is the change-time (ms, read back with stat) of a file the call could legitimately have observed (its argument if its device is trusted, the path being registered, or a registered path for scan / refresh - in every case only if the file it now resolves to lives on a trusted device); observe_file_time on an untrusted device reports nothing and on a trusted one reports exactly that file's change-time; every (base, voucher) pair returned by any call passes VouchedTime::check. The oracle never predicts whether the refresh policy fires. Non-trivial: an observation on an untrusted device followed later by one on a trusted device, or an old trusted file observed after a fresh one. Distinct: hash of the serialised case.",
         assumptions: &[
             "only two writable devices exist in the sandbox (the ext4 device holding /verif and /dev/shm); real NFS semantics are out of reach",
             "a call that fails with an I/O error ends the case without a verdict for the remaining calls",
